@@ -22,6 +22,7 @@ type Gen struct {
 	ndocs      map[string]int       // per segment name: upper bound of doc count
 	curMode    int
 	batchNames []string
+	dumpfiles  bool
 	lineage    map[string]map[string]bool // segment -> base segments it derives from
 	disjoint   bool                       // merge inputs must have pairwise disjoint lineages (vector ids are unique per base segment)
 }
